@@ -1100,6 +1100,9 @@ class Gen:
 
     def agg_expr(self, scope):
         name = self.pick(["SUM", "COUNT", "MIN", "MAX", "AVG", "COUNT"])
+        if name == "AVG" and not self.f.get("avg", True):
+            # AVG yields non-integers, on which the engines' %, CAST(.. AS TEXT) and integer contexts disagree among themselves
+            name = "SUM"
         self.tags.add("agg:" + name.lower())
         if name == "COUNT" and self.chance(0.4):
             return ("agg", "COUNT", "*", False)
